@@ -213,7 +213,11 @@ def gen_case(rng, nmax=120, malformed=False):
     if fd['disp'] and fd['disp'][0] == 't':
         a_, b_ = reorder(fd['disp'][1], fd['disp'][2])
         fd['disp'] = ['t', a_, b_]
-    return {'fiber': fd, 'raman_flag': raman_flag, 'chan': chans, 'order': 'shuffled' if rng.random() < 0.3 and len(chans) > 1 else 'sorted',
+    ints = rng.random() < 0.3
+    if ints:        # integral Hz / Baud values, handed over as int64 arrays
+        # (slot widths 2 Hz narrower so that rounding the centre frequencies cannot make neighbours overlap)
+        chans = [[float(round(c[0])), float(min(math.floor(c[1]), math.floor(c[2]) - 2)), float(math.floor(c[2]) - 2), c[3]] for c in chans]
+    return {'fiber': fd, 'raman_flag': raman_flag, 'ints': ints, 'chan': chans, 'order': 'shuffled' if rng.random() < 0.3 and len(chans) > 1 else 'sorted',
             'perm_seed': rng.randint(0, 10 ** 9), 'k': rng.choice([2.0, 2.0, 0.5, rng.uniform(0.25, 4)]),
             'pick': rng.randint(0, len(chans) - 1), 'raise_db': rng.uniform(0.1, 6)}
 
@@ -283,17 +287,32 @@ def set_sim(raman_flag):
                                            'solver_spatial_resolution': 100}})
 
 
+_INTS = [False]      # the comb of the case in hand is supplied with integer-typed frequency / baud rate / slot width
+
+
+def typed(values):
+    """the vector as gnpy is given it: float64, or int64 (as json.load / numpy.arange produce) when the case says so and
+    every value is integral"""
+    import numpy as np
+    a = np.array(values, dtype=float)
+    if _INTS[0] and len(values) and all(float(v).is_integer() and abs(v) < 2 ** 62 for v in values):
+        return a.astype(np.int64)
+    return a
+
+
 def make_si(chans):
     import numpy as np
     from gnpy.core.info import create_arbitrary_spectral_information
-    f, b, s, p = (np.array([c[i] for c in chans], dtype=float) for i in range(4))
+    f, b, s = (typed([c[i] for c in chans]) for i in range(3))
+    p = np.array([c[3] for c in chans], dtype=float)
     return create_arbitrary_spectral_information(f, slot_width=s, pch=p, baud_rate=b, tx_osnr=40.0, tx_power=p)
 
 
 def duck_si(chans):
     """what _gn_analytic / compute_nli read from a spectral information, in the order given (not sorted)"""
     import numpy as np
-    f, b, p = (np.array([c[i] for c in chans], dtype=float) for i in (0, 1, 3))
+    f, b = (typed([c[i] for c in chans]) for i in (0, 1))
+    p = np.array([c[3] for c in chans], dtype=float)
     n = len(chans)
     return NS(number_of_channels=n, frequency=f, baud_rate=b, pch=p,
               df=np.outer(np.ones(n), f) - np.outer(f, np.ones(n)), channel_number=list(range(1, n + 1)))
@@ -331,6 +350,7 @@ def propagate(fib, case):
     from gnpy.core.info import SpectralInformation
     rec = {}
     set_sim(case.get('raman_flag'))
+    _INTS[0] = bool(case.get('ints'))
     rec['fiber'] = fib
     chans = sorted(case['chan'], key=lambda c: c[0])
     captured = {}
@@ -651,6 +671,8 @@ def run(ctx):
         ctx.count('disp_' + (fd['disp'][0] if fd['disp'] else 'default'))
         ctx.count('area_' + (fd['area'][0] if fd['area'] else 'default'))
         ctx.count('ref_' + (fd['ref'][0] if fd['ref'] else 'default'))
+        if c.get('ints'):
+            ctx.count('integer_typed_comb')
         if fd.get('raman'):
             ctx.count('raman_fiber')
         elif c.get('raman_flag'):
